@@ -17,8 +17,11 @@ Lemma Not_eq (x : R) : Not_hedge x = Not x. Proof. eqgenH. Qed.
 Lemma Seldom_eq (x : R) : Seldom_hedge x = Seldom x.
 Proof.
   eqgenH.
-  - replace (1 / 2 * x) with (x / 2) by lra; reflexivity.
-  - replace (1 / 2 * (1 - x)) with ((1 - x) / 2) by lra; reflexivity.
+  (* robust against commuted / regrouped arguments of sqrt: compare the arguments as real expressions *)
+  all: match goal with
+       | |- sqrt ?a = sqrt ?b => replace a with b by lra; reflexivity
+       | |- _ - sqrt ?a = _ - sqrt ?b => replace a with b by lra; reflexivity
+       end.
 Qed.
 Lemma Somewhat_eq (x : R) : Somewhat_hedge x = Somewhat x. Proof. eqgenH. Qed.
 Lemma Very_eq (x : R) : Very_hedge x = Very x. Proof. eqgenH. Qed.
